@@ -55,6 +55,13 @@ type LVal struct {
 	S string
 }
 
+// NVal holds a number in an interface field: it survives a JSON round trip only through a
+// decoder that keeps numbers exact (UseNumber), i.e. only if the configured Unmarshal is used.
+type NVal struct {
+	N interface{}
+	S string
+}
+
 // KeyDialect maps abstract key indexes 0..U-1 to concrete keys of one Go type
 // and carries an order on indexes written here, not taken from the library.
 type KeyDialect struct {
@@ -266,6 +273,8 @@ func (v *ValDialect) Val(i int) interface{} {
 		return []byte{byte(i), 0, byte(i >> 8), 0xfe}
 	case "lval":
 		return LVal{L: []int{i, i + 1}, S: strconv.Itoa(i)}
+	case "numiface":
+		return NVal{N: json.Number(strconv.FormatInt(9007199254740993+int64(i)*2, 10)), S: strconv.Itoa(i)}
 	case "inf":
 		// float values; some cannot be marshaled by the default (JSON) marshaler at all
 		if i%5 == 2 {
@@ -306,6 +315,8 @@ func (v *ValDialect) Like() interface{} {
 		return []byte{}
 	case "lval":
 		return LVal{}
+	case "numiface":
+		return NVal{}
 	case "ptr":
 		return &SVal{}
 	case "bigstr", "hugestr":
@@ -341,4 +352,4 @@ func (v *ValDialect) Distinct(i, j int) bool {
 }
 
 var allKeyDialects = []string{"int", "int64", "uint", "uint64", "string", "bytes", "userkey", "struct", "lstruct"}
-var allValDialects = []string{"int", "string", "struct", "bytes", "lval", "ptr", "bigstr", "inf", "nil", "hugestr"}
+var allValDialects = []string{"int", "string", "struct", "bytes", "lval", "ptr", "bigstr", "inf", "nil", "hugestr", "numiface"}
